@@ -513,10 +513,46 @@ fn observe_str(rule: &J) -> J {
     o
 }
 
+/// parse -> format -> parse -> format of one rule string.
+fn observe_parse(s: &str, style: u64) -> J {
+    let mut line = json!({"ev": "ParseStr", "s": jbytes(s.as_bytes()), "text": s, "style": style});
+    match guarded(|| MatchRule::try_from(s).map(|x| x.into_owned())) {
+        Ok(Ok(r1)) => {
+            let s2 = r1.to_string();
+            line["accepted"] = J::from(true);
+            line["r1"] = abstract_rule(&r1);
+            line["s2"] = jbytes(s2.as_bytes());
+            match guarded(|| MatchRule::try_from(s2.as_str()).map(|x| x.into_owned())) {
+                Ok(Ok(r2)) => {
+                    line["second"] = json!({"ok": true, "rule": abstract_rule(&r2), "eq": r2 == r1, "s3": jbytes(r2.to_string().as_bytes())});
+                }
+                Ok(Err(e)) => line["second"] = json!({"ok": false, "err": e.to_string()}),
+                Err(p) => line["second"] = json!({"ok": false, "panic": p}),
+            }
+        }
+        Ok(Err(e)) => {
+            line["accepted"] = J::from(false);
+            line["err"] = J::from(e.to_string());
+        }
+        Err(p) => {
+            line["accepted"] = J::from(false);
+            line["panic"] = J::from(p);
+        }
+    }
+    line
+}
+
 /// rulestr-obs <cases.ndjson> <out.ndjson>
 pub fn cmd_rulestr_obs(args: &[String]) {
     let mut out = Out::create(&args[1]);
     for c in read_cases(&args[0]) {
+        if c.get("s").is_some() {
+            // a stored rule string (replay of a ParseStr observation)
+            let mut line = observe_parse(&str_of(&c["s"]), c.get("style").and_then(|x| x.as_u64()).unwrap_or(0));
+            line["id"] = c["id"].clone();
+            out.line(&line);
+            continue;
+        }
         let o = observe_str(&c["rule"]);
         let mut line = json!({"ev": "RuleStr", "id": c["id"], "rule": c["rule"]});
         for (k, v) in o.as_object().unwrap() {
@@ -663,30 +699,7 @@ pub fn cmd_rulestr_rand(args: &[String]) {
                 }
             }
             let s = parts.join(",");
-            let mut line = json!({"ev": "ParseStr", "s": jbytes(s.as_bytes()), "text": s, "style": style});
-            match guarded(|| MatchRule::try_from(s.as_str()).map(|x| x.into_owned())) {
-                Ok(Ok(r1)) => {
-                    let s2 = r1.to_string();
-                    line["accepted"] = J::from(true);
-                    line["r1"] = abstract_rule(&r1);
-                    line["s2"] = jbytes(s2.as_bytes());
-                    match guarded(|| MatchRule::try_from(s2.as_str()).map(|x| x.into_owned())) {
-                        Ok(Ok(r2)) => {
-                            line["second"] = json!({"ok": true, "rule": abstract_rule(&r2), "eq": r2 == r1, "s3": jbytes(r2.to_string().as_bytes())});
-                        }
-                        Ok(Err(e)) => line["second"] = json!({"ok": false, "err": e.to_string()}),
-                        Err(p) => line["second"] = json!({"ok": false, "panic": p}),
-                    }
-                }
-                Ok(Err(e)) => {
-                    line["accepted"] = J::from(false);
-                    line["err"] = J::from(e.to_string());
-                }
-                Err(p) => {
-                    line["accepted"] = J::from(false);
-                    line["panic"] = J::from(p);
-                }
-            }
+            let line = observe_parse(&s, style);
             out.line_id(line);
         }
     }
